@@ -232,3 +232,34 @@ class Report:
 
 def where(module, node) -> str:
     return f"{module.relpath}:{getattr(node, 'lineno', 0)}"
+
+
+class RuleProxy:
+    """presents a Report to a check of another property: every obligation is filed under `rule` with a key prefix"""
+
+    def __init__(self, rep, rule, prefix=''):
+        self._rep, self._rule, self._prefix = rep, rule, prefix
+
+    def __getattr__(self, name):
+        return getattr(self._rep, name)
+
+    def rule(self, *a, **k):
+        return None
+
+    def check(self, rule, key, cond, *a, **k):
+        return self._rep.check(self._rule, self._prefix + key, cond, *a, **k)
+
+    def bad(self, rule, key, *a, **k):
+        return self._rep.bad(self._rule, self._prefix + key, *a, **k)
+
+    def ok(self, rule, key, *a, **k):
+        return self._rep.ok(self._rule, self._prefix + key, *a, **k)
+
+    def undecided(self, rule, key, *a, **k):
+        return self._rep.undecided(self._rule, self._prefix + key, *a, **k)
+
+    def excluded(self, rule, key, *a, **k):
+        return self._rep.excluded(self._rule, self._prefix + key, *a, **k)
+
+    def incomplete(self, rule, key, *a, **k):
+        return self._rep.incomplete(self._rule, self._prefix + key, *a, **k)
